@@ -274,6 +274,14 @@ func concChild(a mon.Args) {
 			k.Opt = i%2 == 1
 			keys = append(keys, k)
 		}
+		if h%4 == 3 {
+			// two exporters whose keys a carelessly derived cache key maps onto one entry (the pairs of the C04 histories):
+			// under concurrency the two must stay two registers as well (round 14, C10-m)
+			ap := aliasPairs()
+			p := ap[(h/4)%len(ap)]
+			keys = []concKey{{Addr: fullCap(p[0].Addr), ID: p[0].ID}, {Addr: fullCap(p[1].Addr), ID: p[1].ID, Opt: g.Bool()}}
+			nk = len(keys)
+		}
 		// many short histories beat one enormous one: linearizability checking is NP-complete and its
 		// cost climbs steeply with the concurrency per key
 		ng := g.Range(4, 12)
